@@ -71,6 +71,8 @@ def strategy(cell, tier):
         "zero": st.lists(st.sampled_from((False, False, False, True, "az", "spatial", "zonly")), min_size=12, max_size=12),
         "zphi": st.floats(-3.0, 3.0), "zlong": st.floats(0.3, 2.5),
         "shape": st.sampled_from(range(len(NP_SHAPES))), "struct": st.sampled_from(range(len(AK_STRUCTS))),
+        # NumPy: columns of different dtypes (integer-typed spatial coordinates next to a float temporal one, ...)
+        "ints": st.sampled_from((None, None, "spatial", "azimuthal", "last")),
     })
 
 
@@ -122,7 +124,24 @@ def check_case(cell, case, ctx):
     if rows is None:
         ctx.exclude("operand_not_representable")
         return
+    int_cols = []
+    if be == "numpy" and case.get("ints"):
+        names_ = R.coord_names(sa)
+        int_cols = {"spatial": list(range(min(3, d))), "azimuthal": [0, 1], "last": [d - 1]}[case["ints"]]
+
+        def as_int(name, x):
+            v = float(round(x))
+            if name == "theta":
+                return min(3.0, max(0.0, v)) if x == 0 else min(3.0, max(1.0, v))
+            if name == "phi":
+                return min(3.0, max(-3.0, v))
+            return v
+
+        rows = [tuple(as_int(names_[j], x) if j in int_cols else x for j, x in enumerate(r)) for r in rows]
     exact = [R.to_cartesian(sa, r) for r in rows]
+    if any(not obs.finite(x) for e in exact for x in e):
+        ctx.exclude("operand_not_representable")
+        return
     comps = [[float(e[k]) for e in exact] for k in range(d)]
     scale = R.scale_of(*[sum(abs(x) for x in c) for c in comps])
     nonzero = [any(e[k] != 0 for k in range(d)) for e in exact]
@@ -142,6 +161,13 @@ def check_case(cell, case, ctx):
         n = int(numpy.prod(shape))
         use = rows[:n] if n <= 12 else rows
         arr = build.np_array(sa, use, mom).reshape(shape) if n else build.np_array(sa, rows[:1], mom)[:0].reshape(shape)
+        if int_cols:
+            plain = arr.view(numpy.ndarray)
+            fn = plain.dtype.names
+            mixed = numpy.zeros(plain.shape, dtype=[(nm, numpy.int64 if j in int_cols else numpy.float64) for j, nm in enumerate(fn)])
+            for nm in fn:
+                mixed[nm] = plain[nm]
+            arr = mixed.view(type(arr))
         ref = [numpy.array(c[:n], dtype=float).reshape(shape) for c in comps]
         nz = numpy.array(nonzero[:n], dtype=bool).reshape(shape)
         axes = [None] + list(range(len(shape))) + [-1]
